@@ -400,7 +400,7 @@ def dtreeReport (cs : Cnf) (elimOrder : List Nat) : Option DTreeReport :=
 def dtreeReportOrig (cs : Cnf) (elimOrder : List Nat) : Option DTreeReport :=
   (DTree.fromCnfOrig cs elimOrder).map DTree.report
 
-partial def VTree.render : VTree → String
+def VTree.render : VTree → String
   | .leaf v => toString v
   | .node l r => s!"({VTree.render l} {VTree.render r})"
 
